@@ -799,7 +799,7 @@ RULE = ('operation histories on object slots 0/1, state printed after every step
         'pushAt = push_back(x[i]), resize, write, read, destroy}; every history of length 5 over a reduced alphabet in which each '
         'operation is applicable on one object (length 6: vector all, others every 3rd; thorough), every such history of length 4 on '
         'two objects (quick; length 5 every 3rd/4th in thorough), random histories of length 6..200 including inapplicable operations '
-        '(which must be skipped) and random histories restricted to the theorem domains; element types int and double. '
+        '(which must be skipped) and random histories restricted to the theorem domains; small_vector additionally: every continuation of length 3 (quick) / 4 of four static/heap two-object prefixes that performs a copy or assignment between a static-mode and a heap-mode object; element types int and double. '
         'array<T,3>, tuple<T,T,T>, tuplev2<T,T,T>: {ctor, ctorV, copy, assign, write, read, destroy}, all histories of length 4 (quick) / 5 '
         'on two objects, int / double / counting non-trivial type for tuples. maybe<T>, either<T,R>: {mk, mkL, mkR, copy, assign, setL, setR, '
         'writeL, read, destroy}, all histories of length 4 (quick) / 5 on two objects, random up to 200, T in {int, double, counting '
@@ -818,11 +818,11 @@ ASSUMPTIONS = ['glibc malloc/free behave; the ledger is the counting allocator b
                'indeterminate memory is made observable: fresh and freed blocks are filled with 0xA5 and printed as `u`; freed blocks are quarantined until the end of the history in the non-sanitizer build',
                'object storage handed to constructors is zero-filled (-fno-lifetime-dse keeps the fill); the model of raw union storage (small_vector, either copy) reflects that; `fill=poison` requests show the effect of non-zero storage',
                'element type parametric model (alpha = Int in the driver): int, double (multiples of 0.5) and the counting type carry integer payloads',
-               'small_vector is checked with its STL-free parts (utl::either / utl::static_vector / utl::vector) passed explicitly as template arguments, DIM = 4, T = int/double (layouts where the union bytes of a value-initialised static_vector read as a null vector); push_back(x[i]) is not part of the alphabet for small_vector',
+               'small_vector is checked with its STL-free parts (utl::either / utl::static_vector / utl::vector) passed explicitly as template arguments, DIM = 4, T = int/double (layouts where the union bytes of a value-initialised static_vector read as a null vector)',
                'utl::tuple / tuplev2 are homogeneous 3-tuples accessed through utl::get<I>; they share the array model']
-PARTIAL = ['small_vector: no ledger theorem (e.g. "histories that stay in static mode never touch the heap") — only the refinement theorem, the leak counterexample and the correspondence run cover its allocator behaviour; push_back(x[i]) is outside its alphabet',
+PARTIAL = ['small_vector ledger: static mode never touches the heap (smallVector_static_no_heap), conservation of blocks on every history (smallVector_ledger_account: allocs = frees + dropped + one per live heap-mode object; smallVector_final_balance) and the exact cost of the static-to-heap switch (smallVector_switch_cost) are proved; NOT proved for small_vector: a set-level statement that no block is freed twice (the counting statement excludes frees of never-allocated blocks and double ownership only in total) — the correspondence run (counting allocator: bad frees, ASan flavour) covers it; push_back(x[i]) at size() == DIM is excluded from the refinement (known finding small_vector.alias-push-at-dim, smallVector_alias_push_counterexample)',
            'either/maybe lifetime theorem either_nontrivial_lifetime_ok covers only histories that never store a left value (every other history of a non-trivial type misbehaves: either_never_destroys)']
 MANIFEST = dict(
-    text='Proof: 23 Lean theorems over all operation histories (List Op, any number of object slots, induction done once in a generic simulation / invariant lemma): utl::vector refines std::vector on EVERY history (sized construction, growing resize, push_back(x[i]) included) and its allocation ledger shows no leak, no double free, no out-of-bounds access, self-assignment is a no-op; static_vector refines the capacity-bounded list with refusal on every history; array/tuple refine std::array; small_vector refines std::vector across the static/dynamic switch; maybe/either refine Option/Sum for trivial and non-trivial T; copies are independent; 5 counterexample theorems for the remaining defects (lifetime handling of maybe/either for non-trivial T, small_vector heap mode). Tied to the real headers on every run by replaying ~3.7e5 (quick) / ~2.1e6 (thorough) histories against the real containers with a counting allocator and a counting element type, three-way IMPL / MODEL / Python-list ORACLE, plus an ASan+UBSan flavour.',
-    note='Lean kernel + propext/Classical.choice/Quot.sound; model hand-written and following the repaired code (fix: commits C19-vector-value-init, -zero-sized-free, -alias-push, C19-static-vector-oversize-ctor, -grow-init); fidelity rests on the correspondence run (which also compares capacity, stale cells and malloc/free counters after every step); 7 known findings (maybe/either lifetime, small_vector heap mode) with witnesses; partial statements are listed in PARTIAL',
+    text='Proof: 29 Lean theorems over all operation histories (List Op, any number of object slots, induction done once in a generic simulation / invariant lemma): utl::vector refines std::vector on EVERY history (sized construction, growing resize, push_back(x[i]) included) and its allocation ledger shows no leak, no double free, no out-of-bounds access, self-assignment is a no-op; static_vector refines the capacity-bounded list with refusal on every history; array/tuple refine std::array; small_vector refines std::vector across the static/dynamic switch (push_back(x[i]) included except at size() == DIM), never touches the heap while every object stays static, conserves blocks on every history (allocs = frees + dropped + live heap-mode objects) and the static-to-heap switch costs exactly 5 (4) allocations, 3 (2) frees and one dropped block; maybe/either refine Option/Sum for trivial and non-trivial T; copies are independent; 6 counterexample theorems for the remaining defects (lifetime handling of maybe/either for non-trivial T, small_vector heap mode, small_vector push_back(x[i]) at size() == DIM). Tied to the real headers on every run by replaying ~3.7e5 (quick) / ~2.1e6 (thorough) histories against the real containers with a counting allocator and a counting element type, three-way IMPL / MODEL / Python-list ORACLE, plus an ASan+UBSan flavour.',
+    note='Lean kernel + propext/Classical.choice/Quot.sound; model hand-written and following the repaired code (fix: commits C19-vector-value-init, -zero-sized-free, -alias-push, C19-static-vector-oversize-ctor, -grow-init); fidelity rests on the correspondence run (which also compares capacity, stale cells and malloc/free counters after every step); 8 known findings (maybe/either lifetime, small_vector heap mode, small_vector aliasing push) with witnesses; partial statements are listed in PARTIAL',
     technique='Lean 4 simulation and invariant proofs over List Op histories + differential history replay with allocator / lifetime ledgers')
